@@ -74,6 +74,11 @@ CLAIMED['C03'] = dict(
    text="Theorem by induction over the value universe (nested lists, dicts to ANY depth): every documented value saves, reads back, and is kind-sensitively equal (bool/int/float/complex/str/None of the same kind and bit-equal, arrays same dtype/shape/content, tuples stay tuples and lists lists with elements losslessly converted to the common numeric kind, dict keys and values recursively). Every 'type' tag the writer stamps is dispatched by the reader, over tag lists generated from the sources. The two forced hypotheses have refutation witnesses (known findings F10, F19). Correspondence: ~650 values incl. every pool leaf at top level and under 1..6 dict levels, on root / inner node / leaf Array, with a second Metadata beside it; oracle = independent Python kind-sensitive comparison.",
    note=TB + MDM + "Modelled not verified: numpy promotion rules, h5py refusing U/O dtypes and NUL in strings, array content by token. 'Any number of Metadata per node, any node position' is exercised by the correspondence (2 per node, 3 positions) and by the tree-level model (bundles).",
    technique="Coq proof by nested structural induction over the value universe + bit-exact vm_compute correspondence", ref="5 C03")
+
+CLAIMED['C04'] = dict(
+   text="Proved: every scalar field dtype HDF5 can hold survives its string form (np.dtype(str(dt)) = dt over the enumerated universe, fixed-width bytes of any width, big-endian included); a PointList comes back with the same length and, in name order, exactly its fields, each with its dtype and content; the same set of fields; a PointListArray re-populated cell by cell from what h5py returns equals the original (empty cells, zero extents); the swallowed per-cell ValueError is shown by witness to drop a cell if a read ever raised. Correspondence + oracle on 500 PointLists/PointListArrays over 22 dtypes: raw per-field datasets and dtype attributes, read-back, second generation.",
+   note=TB + "Model coq/Model/Pl.v. PARTIAL: column/cell contents are tokens (digest of dtype+bytes); that h5py stores/returns them and the vlen machinery are observed, not modelled. Field order is not part of the guarantee (name order after read).",
+   technique="Coq proof (finite dtype universe by evaluation lifted to a theorem; sort/permutation lemmas) + vm_compute correspondence", ref="5 C04")
 PENDING = {}
 props = [json.loads(l) for l in open(os.path.join(V, 'properties.jsonl'))]
 checks, na = [], []
